@@ -59,7 +59,7 @@ TRACK_T = ['vpH_t_InflightsAdd_4', 'vpH_t_InflightsFree_4', 'vpH_t_InflightsMisc
 DET = ['vpH_det_F_MsgHup_bigids', 'vpH_det_L_MsgBeat_bigids', 'vpH_det_F_MsgVote', 'vpH_det_F_MsgApp', 'vpH_det_F_MsgHup', 'vpH_det_C_MsgVoteResp', 'vpH_det_P_MsgPreVoteResp', 'vpH_det_L_MsgHeartbeatResp', 'vpH_det_L_MsgProp', 'vpH_det_L_MsgBeat', 'vpH_det_L_MsgCheckQuorum', 'vpH_det_L_MsgReadIndex']
 DET_T = DET + ['vpH_det_F_MsgSnap', 'vpH_det_L_MsgAppResp', 'vpH_detAll_F_MsgHup', 'vpH_detAll_C_MsgVoteResp', 'vpH_detAll_L_MsgBeat', 'vpH_detAll_L_MsgCheckQuorum', 'vpH_detAll_L_MsgHeartbeatResp', 'vpH_detAll_L_MsgProp']
 
-API_ALL = ['vpH_api_Campaign_F', 'vpH_api_Campaign_L', 'vpH_api_Propose_F', 'vpH_api_Propose_C', 'vpH_api_Propose_L', 'vpH_api_ReadIndex_F', 'vpH_api_ReadIndex_L', 'vpH_api_TransferLeader_F', 'vpH_api_TransferLeader_L', 'vpH_api_ForgetLeader_F', 'vpH_api_ReportUnreachable_L', 'vpH_api_ReportSnapshot_L', 'vpH_api_Tick_F', 'vpH_api_Tick_L']
+API_ALL = ['vpH_api_Campaign_F', 'vpH_api_Campaign_L', 'vpH_api_Propose_F', 'vpH_api_Propose_C', 'vpH_api_Propose_L', 'vpH_api_ReadIndex_F', 'vpH_api_ReadIndex_L', 'vpH_api_TransferLeader_F', 'vpH_api_TransferLeader_L', 'vpH_api_ForgetLeader_F', 'vpH_api_ReportUnreachable_L', 'vpH_api_ReportSnapshot_L', 'vpH_api_Tick_F', 'vpH_api_Tick_L', 'vpH_api_ProposeConfChange_v1', 'vpH_api_ProposeConfChange_v2']
 API_LIGHT = [h for h in API_ALL if h not in ('vpH_api_TransferLeader_L', 'vpH_api_Tick_L', 'vpH_api_Propose_L')]
 API_TXT = "RawNode request methods (Campaign, Propose, ReadIndex, TransferLeader, ForgetLeader, ReportUnreachable, ReportSnapshot, Tick): relational cells decide that the method leaves the node exactly as stepping the documented message does (labels API/). "
 
@@ -125,8 +125,8 @@ prop("C02",
      "E2 grant rule (one vote per term, only to up-to-date logs, not while following a leader), E3 a node becomes leader only as a candidate by a MsgVoteResp of its own term that completes a joint-majority of granted votes, E4 provenance of tallied votes, E5 the self vote travels through the after-append queue, E6 leading only with a durable term, E7 restart as follower.")
 
 prop("C17",
-     H(VOTE, ["K1/", "K3/"]) + H(VRESP + HUP, ["K2/"]) + H(step('L', 'MsgCheckQuorum') + step('L', 'MsgHeartbeatResp')[:0], ["K4/"]) + H(TICK[1:3], ["K5/"]) + H(["vpH_api_Campaign_F", "vpH_api_ForgetLeader_F", "vpH_api_TransferLeader_F", "vpH_api_Tick_F"], ["API/"]),
-     H(T(VOTE), ["K1/", "K3/"]) + H(T(VRESP + HUP), ["K2/"]) + H(T(step('L', 'MsgCheckQuorum') + LEAD_HBR + LEAD_ACK), ["K4/"]) + H(TICK[:3] + ['vpH_tick_CheckQuorum_et3', 'vpH_tick_CheckQuorum_et2_joint'], ["K5/"]) + H(["vpH_api_Campaign_F", "vpH_api_ForgetLeader_F", "vpH_api_TransferLeader_F", "vpH_api_TransferLeader_L", "vpH_api_Tick_F", "vpH_api_Tick_L"], ["API/"]),
+     H(VOTE, ["K1/", "K3/"]) + H(VRESP + HUP, ["K2/"]) + H(step('L', 'MsgCheckQuorum') + step('L', 'MsgHeartbeatResp')[:0], ["K4/"]) + H(TICK[1:3], ["K5/"]) + H(["vpH_api_Campaign_F", "vpH_api_ForgetLeader_F", "vpH_api_TransferLeader_F", "vpH_api_Tick_F"], ["API/"]) + H(["vpH_step_L_MsgTransferLeader_learner"], ["K2/", "E2/", "Inv/"]),
+     H(T(VOTE), ["K1/", "K3/"]) + H(T(VRESP + HUP), ["K2/"]) + H(T(step('L', 'MsgCheckQuorum') + LEAD_HBR + LEAD_ACK), ["K4/"]) + H(TICK[:3] + ['vpH_tick_CheckQuorum_et3', 'vpH_tick_CheckQuorum_et2_joint'], ["K5/"]) + H(["vpH_api_Campaign_F", "vpH_api_ForgetLeader_F", "vpH_api_TransferLeader_F", "vpH_api_TransferLeader_L", "vpH_api_Tick_F", "vpH_api_Tick_L"], ["API/"]) + H(["vpH_step_L_MsgTransferLeader_learner"], ["K2/", "E2/", "Inv/"]),
      BQ + BT + "Tick harnesses: ElectionTick 2 (3), HeartbeatTick 1, 2*ET ticks without incoming messages. " + OUT,
      "K1 a pre-vote request changes nothing but the reply, K2 with PreVote the term rises for a campaign only after a pre-vote quorum or on a leader-initiated transfer, K3 the leader lease, K4 CheckQuorum steps down iff no joint-majority was recently active, K5 a silent leader steps down within two election timeouts.")
 
@@ -173,8 +173,8 @@ prop("C09",
      "S1 a snapshot at or below the commit index, without this node, or matching the log changes nothing but (for a match) the commit index; otherwise it replaces the log, commit index and configuration exactly; S2 persistence handshake; S3 the leader sends the storage snapshot only for a compacted prefix and tracks it; S4 snapshot status handling.")
 
 prop("C10",
-     H(CONF, ["G1/", "G4/", "Q1/", "P1/"]) + H(HUP[:3] + HUP[4:7], ["G3/"]) + H(ACK[:3], ["G6/"]) + H(VRESP[:2], ["E3/"]) + H(HUP_X, ["G3/"]),
-     H(CONF_T, ["G1/", "G4/", "Q1/", "P1/"]) + H(T(HUP), ["G3/"]) + H(ACK[:3], ["G6/"]) + H(T(VRESP), ["E3/"]) + H(HUP_X, ["G3/"]),
+     H(CONF, ["G1/", "G4/", "Q1/", "P1/"]) + H(HUP[:3] + HUP[4:7], ["G3/"]) + H(ACK[:3], ["G6/"]) + H(VRESP[:2], ["E3/"]) + H(HUP_X, ["G3/"]) + H(["vpH_api_ProposeConfChange_v1", "vpH_api_ProposeConfChange_v2"], ["API/propose-conf-change"]),
+     H(CONF_T, ["G1/", "G4/", "Q1/", "P1/"]) + H(T(HUP), ["G3/"]) + H(ACK[:3], ["G6/"]) + H(T(VRESP), ["E3/"]) + H(HUP_X, ["G3/"]) + H(["vpH_api_ProposeConfChange_v1", "vpH_api_ProposeConfChange_v2"], ["API/propose-conf-change"]),
      BQ + BT + "Propose gate: <= 2 (3) entries per proposal, each normal / ConfChange / ConfChangeV2 with <= 2 changes, symbolic types and node ids; ApplyConfChange: <= 2 changes over ids 1..4 on shapes {simple, joint, joint+LearnersNext, self learner}, restricted to changes the Changer accepts (A-cc). " + OUT,
      "G1 the propose gate keeps at most one unapplied configuration change and refuses enter/leave mismatches, G3 no campaign with a committed-but-unapplied change, G4 ApplyConfChange installs exactly the Changer's result (C13) and handles leader removal, G5 election and commit quorums are joint (E3, Q1 on joint shapes), G6 auto-leave is proposed exactly when the joint configuration has been applied.")
 
@@ -204,8 +204,8 @@ prop("C20",
      "P1 an accepted proposal appends exactly the proposed entries (payload, type, order) once, as copies, P2 a dropped proposal changes nothing, P3 non-leaders forward the same entries once or drop, P4 outside proposals every new or changed log entry is an entry of the stepped MsgApp, the empty entry of a new leader or the empty auto-leave entry.")
 
 prop("C14",
-     H(VOTE + VRESP[:4] + HUP + HB + APP[:1] + SNAP[:1] + PROP_Q + LEAD + LEAD_ACK_Q[:1] + SMALL, ["Inv/"], panics=True) + H(RAW_SYNC_Q + RAW_ASYNC_Q[:1] + RAW_SNAP + RESTART + CONF[2:] + ACK[:1] + ACK[3:4], ["Inv/"], panics=True) + H(API_LIGHT + ["vpH_api_Propose_L"], ["API/"], panics=True) + H(HUP_X, ["Inv/", "G3/"], panics=True),
-     H(T(ALL_STEP + LEAD_ACK + APP_L + SNAP_L), ["Inv/"], panics=True) + H(RAW_ALL + RAW_ADV + ['vpH_raw_Restart_3'] + CONF + ACK + TICK, ["Inv/"], panics=True) + H(LOG_T + TRACK_T, ["C18/", "C16/"], panics=True) + H(API_ALL, ["API/"], panics=True) + H(HUP_X, ["Inv/", "G3/"], panics=True),
+     H(VOTE + VRESP[:4] + HUP + HB + APP[:1] + SNAP[:1] + PROP_Q + LEAD + LEAD_ACK_Q[:1] + SMALL, ["Inv/"], panics=True) + H(RAW_SYNC_Q + RAW_ASYNC_Q[:1] + RAW_SNAP + RESTART + CONF[2:] + ACK[:1] + ACK[3:4], ["Inv/"], panics=True) + H(API_LIGHT + ["vpH_api_Propose_L"], ["API/"], panics=True) + H(HUP_X, ["Inv/", "G3/"], panics=True) + H(["vpH_step_L_MsgTransferLeader_learner"], ["Inv/"], panics=True),
+     H(T(ALL_STEP + LEAD_ACK + APP_L + SNAP_L), ["Inv/"], panics=True) + H(RAW_ALL + RAW_ADV + ['vpH_raw_Restart_3'] + CONF + ACK + TICK, ["Inv/"], panics=True) + H(LOG_T + TRACK_T, ["C18/", "C16/"], panics=True) + H(API_ALL, ["API/"], panics=True) + H(HUP_X, ["Inv/", "G3/"], panics=True) + H(["vpH_step_L_MsgTransferLeader_learner"], ["Inv/"], panics=True),
      BQ + BT + OUT,
      "No run of any cell ends in a panic (explicit panic, Logger.Panic*, index/slice out of range, nil dereference, nil-map write, failed type assertion, division by zero) and the representation invariant holds afterwards, under Inv, the V-* input assumptions, A-cc and the storage contract.")
 
